@@ -198,19 +198,21 @@ structure ParamsOk (P : Params) : Prop where
   ohNe : P.objHashNoneR ≠ P.objHashSomeR
   ohNLt : P.objHashNoneW < 256
   ohSLt : P.objHashSomeW < 256
+  loopAll : P.mapLoopCap = none
 
 theorem paramsOk_iff (P : Params) : paramsOk P = true ↔ ParamsOk P := by
   constructor
   · intro h
     simp only [paramsOk, Bool.and_eq_true, decide_eq_true_eq] at h
-    obtain ⟨⟨⟨⟨⟨⟨⟨⟨⟨⟨⟨⟨⟨⟨⟨⟨⟨⟨⟨⟨h1, h2⟩, h3⟩, h4⟩, h5⟩, h6⟩, h7⟩, h8⟩, h9⟩, h10⟩, h11⟩, h12⟩, h13⟩, h14⟩,
-      h15⟩, h16⟩, h17⟩, h18⟩, h19⟩, h20⟩, h21⟩ := h
-    exact ⟨h1, h2, h3, h4, h5, h6, h7, h8, h9, h10, h11, h12, h13, h14, h15, h16, h17, h18, h19, h20, h21⟩
+    obtain ⟨⟨⟨⟨⟨⟨⟨⟨⟨⟨⟨⟨⟨⟨⟨⟨⟨⟨⟨⟨⟨h1, h2⟩, h3⟩, h4⟩, h5⟩, h6⟩, h7⟩, h8⟩, h9⟩, h10⟩, h11⟩, h12⟩, h13⟩, h14⟩,
+      h15⟩, h16⟩, h17⟩, h18⟩, h19⟩, h20⟩, h21⟩, h22⟩ := h
+    exact ⟨h1, h2, h3, h4, h5, h6, h7, h8, h9, h10, h11, h12, h13, h14, h15, h16, h17, h18, h19, h20, h21,
+      Option.isNone_iff_eq_none.mp h22⟩
   · intro h
     simp only [paramsOk, Bool.and_eq_true, decide_eq_true_eq]
-    exact ⟨⟨⟨⟨⟨⟨⟨⟨⟨⟨⟨⟨⟨⟨⟨⟨⟨⟨⟨⟨h.i64None, h.i64Some⟩, h.i64Ne⟩, h.i64NoneLt⟩, h.i64SomeLt⟩, h.https⟩,
+    exact ⟨⟨⟨⟨⟨⟨⟨⟨⟨⟨⟨⟨⟨⟨⟨⟨⟨⟨⟨⟨⟨h.i64None, h.i64Some⟩, h.i64Ne⟩, h.i64NoneLt⟩, h.i64SomeLt⟩, h.https⟩,
       h.httpsLt⟩, h.bytes⟩, h.bytesLt⟩, h.time⟩, h.timeIn⟩, h.stS⟩, h.stA⟩, h.stNe⟩, h.stSLt⟩, h.stALt⟩,
-      h.ohN⟩, h.ohS⟩, h.ohNe⟩, h.ohNLt⟩, h.ohSLt⟩
+      h.ohN⟩, h.ohS⟩, h.ohNe⟩, h.ohNLt⟩, h.ohSLt⟩, Option.isNone_iff_eq_none.mpr h.loopAll⟩
 
 theorem pow_256_1 : (256 : Nat) ^ 1 = 2 ^ 8 := by decide
 theorem pow_256_4 : (256 : Nat) ^ 4 = 2 ^ 32 := by decide
@@ -411,9 +413,11 @@ theorem field_roundtrip (P : Params) (hP : paramsOk P = true) (ty : FT) (v : Val
     obtain ⟨bs', hbs', hdec⟩ := decMapLoop_enc l [] rest h.2 (by simp)
     rw [hbs] at hbs'
     cases hbs'
+    have hcount : mapLoopCount P l.length = l.length := by
+      unfold mapLoopCount; rw [ok.loopAll]
     simp only [dec]
     rw [List.append_assoc, bind_res_ok (readBE_enc (by rw [pow_256_8]; exact h.1) _),
-      bind_res_ok (alloc_res _ _), bind_res_ok hdec]
+      bind_res_ok (alloc_res _ _), hcount, bind_res_ok hdec]
     simp
   case updStatus.st s secs nanos =>
     simp only [Bool.and_eq_true, beq_iff_eq] at h
